@@ -26,33 +26,8 @@ func (c *Ctx) reportLockAccesses(rule string, la *lockset.Analysis, pkg, owner, 
 	}
 	accs := la.FieldAccesses(prog.Abs(pkg), owner, field)
 	idx := map[string]int{}
-	// blame: an access inside an unexported helper that has exactly one calling function is identified by that
-	// caller (transitively), so that moving code into or out of such a helper does not change which finding it is
 	pkgFns := c.P.FuncsIn(pkg)
-	var blame func(f *ssa.Function, depth int) *ssa.Function
-	blame = func(f *ssa.Function, depth int) *ssa.Function {
-		if f == nil || depth > 4 || f.Parent() != nil || f.Object() == nil || f.Object().Exported() {
-			return f
-		}
-		callers := map[*ssa.Function]bool{}
-		for _, st := range callSitesOf(f, pkgFns) {
-			top := st.Parent()
-			for top.Parent() != nil {
-				top = top.Parent()
-			}
-			callers[top] = true
-		}
-		if len(callers) != 1 {
-			return f
-		}
-		for g := range callers {
-			if g == f {
-				return f
-			}
-			return blame(g, depth+1)
-		}
-		return f
-	}
+	blame := func(f *ssa.Function, depth int) *ssa.Function { return blameCaller(f, pkgFns) }
 	for _, a := range accs {
 		base := fmt.Sprintf("%s: %s.%s %s", fname(blame(a.Fn, 0)), owner, field, a.Kind)
 		idx[base]++
@@ -585,4 +560,34 @@ func c16FailedWrite(c *Ctx) {
 		}
 	}
 	c.R.Check(bad == "" && nEdges > 0, "C16-R5", "Process: after a failed write nothing emitted is handed on", c.pos(ws), "no send on Service.Emitted and no re-processing goroutine is reachable from the error edge of WriteState", "after WriteState failed, Process still hands emitted messages on ("+bad+"): the transitions that produced them were not committed, so other machines (and the host) act on something that, for the store and for memory, never happened")
+}
+
+// blameCaller: an instruction inside an unexported helper that has exactly one calling function is identified by
+// that caller (transitively), so that moving code into or out of such a helper does not change which finding it is.
+func blameCaller(f *ssa.Function, pkgFns []*ssa.Function) *ssa.Function {
+	var rec func(f *ssa.Function, depth int) *ssa.Function
+	rec = func(f *ssa.Function, depth int) *ssa.Function {
+		if f == nil || depth > 4 || f.Parent() != nil || f.Object() == nil || f.Object().Exported() {
+			return f
+		}
+		callers := map[*ssa.Function]bool{}
+		for _, st := range callSitesOf(f, pkgFns) {
+			top := st.Parent()
+			for top.Parent() != nil {
+				top = top.Parent()
+			}
+			callers[top] = true
+		}
+		if len(callers) != 1 {
+			return f
+		}
+		for g := range callers {
+			if g == f {
+				return f
+			}
+			return rec(g, depth+1)
+		}
+		return f
+	}
+	return rec(f, 0)
 }
